@@ -46,6 +46,32 @@ pub fn eval_hook(p: &Pos, has_legal: bool) -> i32 {
     v
 }
 
+/// (engine's horizon valuation, reference's) for the mover of `p`
+pub fn quiescence_pair(p: &Pos) -> Result<(i32, i32), String> {
+    thread_local! {
+        static Q: std::cell::RefCell<Option<verif::Quiescence>> = std::cell::RefCell::new(None);
+    }
+    let b = board_of(p);
+    let got = Q.with(|q| {
+        let mut q = q.borrow_mut();
+        let mut inst = q.take().unwrap_or_else(verif::Quiescence::new);
+        let r = guarded(move || {
+            let v = inst.value(b);
+            (v, inst)
+        });
+        match r {
+            Ok((v, inst)) => {
+                *q = Some(inst);
+                Ok(v)
+            }
+            Err(e) => Err(e), // the instance is dropped: a fresh one next time
+        }
+    })?;
+    let eval = |q: &Pos, l: bool| eval_hook(q, l);
+    let mut rs = RefSearch::new(&eval);
+    Ok((got, rs.quiesce(p)))
+}
+
 #[derive(Debug, Clone, Default)]
 pub struct SearchOut {
     pub score: Option<Score>,
@@ -437,6 +463,60 @@ pub fn run_c08(tier: Tier) -> i32 {
         }
     });
     fams.push(json!({"family": "window independence on STAGE9 (sub-lattice) and flips, depth 2: V(P) == max over searchmoves-m searches", "positions": win_n.load(Ordering::Relaxed), "single_move_searches": win_searches.load(Ordering::Relaxed), "stride": stride, "secs": t0.elapsed().as_secs_f64()}));
+    // (3c) the horizon valuation itself: `search_quiescence` on a full window (through the hook, the
+    // same Search type the engine runs) against the reference's exhaustive capture/promotion
+    // resolution with stand-pat — on whole families, not only where a root search happens to steer
+    let t0 = Instant::now();
+    let qs_n = AtomicU64::new(0);
+    let qs_resolved = AtomicU64::new(0);
+    let qs_judge = |p: &Pos| {
+        if !p.has_legal_move() {
+            return; // the horizon test of the search hands move-less positions to the terminal valuation
+        }
+        qs_n.fetch_add(1, Ordering::Relaxed);
+        let (got, want) = match quiescence_pair(p) {
+            Ok(x) => x,
+            Err(e) => {
+                rep.report(format!("horizon_valuation_panics:{}", short(&e)), json!({"kind": "quiescence", "fen": p.to_fen(), "detail": {"panic": e}}));
+                return;
+            }
+        };
+        if want != eval_hook(p, true) {
+            qs_resolved.fetch_add(1, Ordering::Relaxed);
+        }
+        rep.sample(|| json!({"fen": p.to_fen(), "horizon_value_engine": got, "horizon_value_reference": want, "stand_pat": eval_hook(p, true)}));
+        if got != want {
+            let promo = p.legal().iter().any(|m| m.promo != 0);
+            rep.report(format!("horizon_value_differs:{}", if promo { "mover_can_promote" } else { "captures_only" }), json!({"kind": "quiescence", "fen": p.to_fen(), "detail": {"engine": got, "reference": want, "stand_pat": eval_hook(p, true)}}));
+        }
+    };
+    {
+        let mut list: Vec<(Box<dyn Family>, u64)> = Vec::new();
+        for sig in MAT3_SIGS {
+            list.push((Box::new(Material::new(sig)), if tier == Tier::Quick { 7 } else { 1 }));
+        }
+        for sig in MAT4_SIGS {
+            list.push((Box::new(Material::new(sig)), if tier == Tier::Quick { 211 } else { 11 }));
+        }
+        list.push((Box::new(PromoFam::quick()), if tier == Tier::Quick { 13 } else { 1 }));
+        list.push((Box::new(EpFam::quick()), if tier == Tier::Quick { 31 } else { 3 }));
+        list.push((Box::new(Pawn7), if tier == Tier::Quick { 8_009 } else { 61 }));
+        list.push((Box::new(Stage9), (Stage9.len() / if tier == Tier::Quick { 60_000 } else { 3_000_000 }) | 1));
+        for (f, stride) in list.iter() {
+            let t1 = Instant::now();
+            let sf = Strided(f.as_ref(), *stride);
+            let n = for_family(&sf, &qs_judge);
+            let n2 = for_family(&Flipped(&sf), &qs_judge);
+            fams.push(json!({"family": format!("horizon valuation on {}", sf.name()), "legal_members": n, "flipped_members": n2, "secs": t1.elapsed().as_secs_f64()}));
+        }
+        let t1 = Instant::now();
+        let (s, _, _) = reach(&roots(), if tier == Tier::Quick { 1 } else { 3 }, &|p, _| qs_judge(p));
+        fams.push(json!({"family": "horizon valuation on REACH", "states": s, "secs": t1.elapsed().as_secs_f64()}));
+    }
+    fams.push(json!({"family": "horizon valuation total", "positions": qs_n.load(Ordering::Relaxed), "positions_where_a_capture_or_promotion_beats_stand_pat": qs_resolved.load(Ordering::Relaxed), "secs": t0.elapsed().as_secs_f64()}));
+    if qs_resolved.load(Ordering::Relaxed) == 0 {
+        rep.machinery("vacuous: horizon valuation never differed from stand-pat");
+    }
     // (4) forced mates from retrograde tables
     let t0 = Instant::now();
     let max_n: i8 = if tier == Tier::Quick { 2 } else { 3 };
@@ -1072,6 +1152,17 @@ pub fn replay(id: &str, case: &Value) -> i32 {
                 if score != *b {
                     rep.report("value_depends_on_the_search_window".to_string(), json!({"kind": "window", "fen": p.to_fen(), "depth": depth}));
                 }
+            }
+        }
+        ("C08", "quiescence") => {
+            match quiescence_pair(&p) {
+                Ok((got, want)) => {
+                    println!("horizon valuation of {}: engine {}, reference {} (stand-pat {})", p.to_fen(), got, want, eval_hook(&p, true));
+                    if got != want {
+                        rep.report("horizon_value_differs".to_string(), json!({"kind": "quiescence", "fen": p.to_fen()}));
+                    }
+                }
+                Err(e) => rep.report("horizon_valuation_panics".to_string(), json!({"kind": "quiescence", "fen": p.to_fen(), "detail": {"panic": e}})),
             }
         }
         ("C08", "session") => {
